@@ -53,6 +53,12 @@ HARNESSES = [split_h(n, ['quick', 'thorough']) for n in (1, 2, 3, 4, 5, 6, 7, 8)
   dict(name='reduce_bag_affinity', unit='red_affinity', harness='h_reduce.c', cbmc=RCBMC,
        scenarios=[dict(sc, STOLEN=st) for sc in sched(4, 1, 1, 1, nestmasks=(0, 1, 5), drains=(0, 3), extra={'MAXCONC': 2}) for st in (0, 5, 15)],
        desc='bag', bounds={}),
+  dict(name='detreduce_bag_simple', unit='det_simple', harness='h_reduce.c', cbmc=RCBMC, defines={'DETERMINISTIC': None},
+       scenarios=sched(4, 1, 1, 1, nestmasks=(0, 1, 3, 5, 10), drains=(0, 3, 5)) + sched(3, 1, 1, 1, cancel=(2, 4), nestmasks=(0, 1), drains=(0, 1)),
+       desc='bag', bounds={}),
+  dict(name='detreduce_bag_static', unit='det_static', harness='h_reduce.c', cbmc=RCBMC, defines={'DETERMINISTIC': None},
+       scenarios=sched(4, 1, 1, 1, nestmasks=(0, 1, 3), drains=(0, 1), extra={'MAXCONC': 3}),
+       desc='bag', bounds={}),
 ]
 OUTSIDE = []
 STUBS = []
